@@ -76,7 +76,7 @@ CHECKS = {
  'C09': dict(
    text='full agent world on Slurm node names with a seeded launcher configuration (FORK, MPIRUN +MPT/RSH/CCMRUN/DPLACE, MPIEXEC +MPT with rank file / host file / PALS / -f modes, SRUN old/new, APRUN, IBRUN with/without tasks_per_node, SSH, RSH, CCMRUN; >42-host thresholds): the real scheduler chooses slots, the real executor asks the real find_launcher / get_launch_cmds; a spy records command + referenced files; oracle = reference parser (process count, node multiset or node set, rank-file / cpu-bind pins, ibrun host list offset) vs. the slots, command of a fresh launcher instance (history independence), refusal of multi-rank tasks by single-process methods. The history dimension (order in which tasks reach the one launcher object) is decided by the simulated schedule; the input dimension is seeded generation. Sampling, not proof.',
    ref='4 (C09)',
-   note='trusted: reference command parsers (written from the launchers documented syntax), simulator fakes; launcher binaries are not executed; JSRUN/PRTE not driven',
+   note='trusted: reference command parsers (written from the launchers documented syntax), simulator fakes; launcher binaries are not executed; JSRUN ERF host numbers are compared with the node index of the placement (base 0 or 1 not decided); PRTE DVM start-up not driven (launcher initialised from a registry record)',
    technique='deterministic simulation: randomised launcher configuration in the full agent world, reference-parser oracle + fresh-instance differential'),
 
  'C05': dict(
